@@ -1,6 +1,7 @@
 package c02
 
 import (
+	"strconv"
 	"testing"
 
 	"pgregory.net/rapid"
@@ -32,6 +33,46 @@ func genCase(t *rapid.T) Case {
 
 func TestProp(t *testing.T) {
 	core.RunProp(t, "main", core.Scale(1500), genCase, Run)
+}
+
+// TestWide: item counts around the int16 boundary (RowDescription, DataRow,
+// CopyInResponse, ParameterDescription with 32767..65535 items).
+func TestWide(t *testing.T) {
+	if shard, _ := core.Shard(); shard != 0 {
+		return
+	}
+	for _, n := range []int{255, 256, 32767, 32768, 40000, 65535} {
+		cols := make([]script.Col, n)
+		row := make([]script.Val, n)
+		params := make([]uint32, n)
+		for i := range cols {
+			cols[i] = script.Col{Name: "", T: "text"}
+			row[i] = script.Val{T: "text", Null: "nil"}
+			if i%1000 == 0 {
+				row[i] = script.Val{T: "text", S: "x"}
+			}
+			params[i] = 23
+		}
+		c := Case{Stepwise: true}
+		c.Cfg.SetLimit, c.Cfg.Limit = true, 1<<16
+		c.Cfg.Table.Q = map[string]script.Outcome{
+			"wide rows": {Stmts: []script.Stmt{{Cols: cols, Params: params, Ops: []script.Op{{K: "row", Vals: row}, {K: "row", Vals: row[:n-1]}, {K: "complete", Tag: "SELECT 1"}}}}},
+			"wide copy": {Stmts: []script.Stmt{{Cols: cols, Ops: []script.Op{{K: "copyin", Copy: &script.CopySpec{Format: 1, MaxReads: 0}}, {K: "complete", Tag: "COPY 0"}}}}},
+		}
+		c.Msgs = []script.CMsg{
+			{K: "Q", Query: "wide rows"},
+			{K: "P", Name: "w", Query: "wide rows"}, {K: "D", Kind: 'S', Name: "w"}, {K: "B", Portal: "w", Name: "w", RFmts: []int16{1}}, {K: "D", Kind: 'P', Portal: "w"}, {K: "E", Portal: "w"}, {K: "S"},
+			{K: "Q", Query: "wide copy"},
+			{K: "Q", Query: "wide rows"},
+		}
+		core.RunCase(t, "wide", c, func(c Case) core.Result {
+			r := Run(c)
+			r.NonTrivial = true
+			r.Labels = append(r.Labels, "items="+strconv.Itoa(n))
+			return r
+		})
+	}
+	core.MarkExhaustive("wide (255..65535 columns/parameters: RowDescription, DataRow, CopyInResponse, ParameterDescription)")
 }
 
 // fixed configurations for the byte-level fuzz target
@@ -68,5 +109,5 @@ func FuzzServerStream(f *testing.F) {
 }
 
 func TestReplay(t *testing.T) {
-	core.Replay(t, map[string]func(Case) core.Result{"main": Run, "fuzz": Run})
+	core.Replay(t, map[string]func(Case) core.Result{"main": Run, "fuzz": Run, "wide": Run})
 }
